@@ -164,8 +164,8 @@ Scenarios ==
          {MixByDest("tt", 1), MixByRule("wt", 2), MixCollide("et", 10), Solo("wt", 10)}
     [] Family = "c13-full" ->
          {MixByDest(t, g) : t \in TputTypes, g \in {1, 2, 10}}
-         \cup {MixByRule(t, g) : t \in TputTypes, g \in {1, 2, 10}}
-         \cup {MixCollide(t, g) : t \in TputTypes, g \in {1, 2, 10}}
+         \cup {MixByRule(t, g) : t \in TputTypes, g \in {2, 10}}
+         \cup {MixCollide(t, 10) : t \in TputTypes}
          \cup {Solo(t, g) : t \in TputTypes, g \in {2, 10}}
     [] Family = "collect-quick" ->
          {PairScenario(Awk("wt"), 1), MixCollide("et", 10)}
